@@ -1,6 +1,7 @@
 package main
 
 import (
+	"errors"
 	"fmt"
 	"io"
 	"math/rand"
@@ -25,7 +26,19 @@ func init() {
 	})
 }
 
+type failingReader struct{ left int }
+
+func (f *failingReader) Read(p []byte) (int, error) {
+	if f.left == 0 {
+		return 0, errors.New("scripted read fault")
+	}
+	f.left--
+	p[0] = 'x'
+	return 1, nil
+}
+
 type timingRT struct {
+	faults bool
 	mu    sync.Mutex
 	start time.Time
 	entry map[uint64]int64
@@ -43,6 +56,15 @@ func (t *timingRT) RoundTrip(req *http.Request) (*http.Response, error) {
 	t.mu.Lock()
 	t.entry[seq], t.dur[seq] = int64(at), int64(took)
 	t.mu.Unlock()
+	// every exit path of a hit must stamp its latency: some exchanges fail in the transport,
+	// some while the body is read
+	switch {
+	case t.faults && seq%7 == 3:
+		return nil, errors.New("scripted transport error")
+	case t.faults && seq%7 == 5:
+		return &http.Response{StatusCode: 200, Status: "200 OK", Body: io.NopCloser(&failingReader{left: 2}), Request: req,
+			Proto: "HTTP/1.1", ProtoMajor: 1, ProtoMinor: 1, Header: http.Header{}}, nil
+	}
 	return &http.Response{StatusCode: 200, Status: "200 OK", Body: io.NopCloser(strings.NewReader("ok")), Request: req,
 		Proto: "HTTP/1.1", ProtoMajor: 1, ProtoMinor: 1, Header: http.Header{}}, nil
 }
@@ -50,7 +72,10 @@ func (t *timingRT) RoundTrip(req *http.Request) (*http.Response, error) {
 func runC05(idx int, rng *rand.Rand, tier string) []Case {
 	workers := []uint64{1, 2, 4, 8, 16, 32, 64}[rng.Intn(7)]
 	slow := rng.Intn(3) == 0
-	rt := &timingRT{entry: map[uint64]int64{}, dur: map[uint64]int64{}}
+	rt := &timingRT{entry: map[uint64]int64{}, dur: map[uint64]int64{}, faults: idx%2 == 1}
+	if rt.faults {
+		slow = true // the transport takes measurable time on the failing paths too
+	}
 	rt.lat = func() time.Duration {
 		if slow {
 			return time.Duration(rng.Intn(50)) * time.Microsecond
